@@ -767,4 +767,53 @@ theorem nodup_map_journalEnc {pairs : Pairs} (ht : TablePct pairs = true) (ts : 
     subst this
     exact h'.1 hu
 
+/-! ## Node.find -/
+
+theorem findNode_sound (top : Bytes) : ∀ (fqids : List Bytes) (name : Bytes) (j : Nat),
+    findNode top fqids name = some j → ∃ f, fqids[j]? = some f ∧ nodeMatches top f name = true := by
+  intro fqids
+  induction fqids with
+  | nil => intro _ _ h; simp [findNode] at h
+  | cons f rest ih =>
+    intro name j h
+    simp only [findNode] at h
+    by_cases hm : nodeMatches top f name = true
+    · simp only [hm, if_true, Option.some.injEq] at h
+      subst h; exact ⟨f, rfl, hm⟩
+    · have hm' : nodeMatches top f name = false := by simpa using hm
+      simp only [hm', Bool.false_eq_true, if_false] at h
+      cases hr : findNode top rest name with
+      | none => rw [hr] at h; simp at h
+      | some k =>
+        rw [hr] at h
+        have : j = k + 1 := by simpa using h.symm
+        subst this
+        simpa using ih name k hr
+
+theorem findNode_routes (top : Bytes) : ∀ (fqids : List Bytes) (i : Nat) (n : Bytes),
+    fqids.Nodup → fqids[i]? = some (top ++ cDot :: n) → (∀ f ∈ fqids, f ≠ n) →
+    findNode top fqids n = some i := by
+  intro fqids
+  induction fqids with
+  | nil => intro _ _ _ h; simp at h
+  | cons f rest ih =>
+    intro i n hnd hi hno
+    simp only [findNode]
+    have hnd' := List.nodup_cons.mp hnd
+    cases i with
+    | zero =>
+      have : f = top ++ cDot :: n := by simpa using hi
+      subst this
+      simp [nodeMatches]
+    | succ k =>
+      have hk : rest[k]? = some (top ++ cDot :: n) := by simpa using hi
+      have hmem : (top ++ cDot :: n) ∈ rest := List.mem_of_getElem? hk
+      have h1 : f ≠ top ++ cDot :: n := fun e => hnd'.1 (e ▸ hmem)
+      have h2 : f ≠ n := hno f List.mem_cons_self
+      have : nodeMatches top f n = false := by
+        simp only [nodeMatches, Bool.or_eq_false_iff, beq_eq_false_iff_ne]
+        exact ⟨h1, h2⟩
+      simp only [this, Bool.false_eq_true, if_false,
+        ih k n hnd'.2 hk (fun g hg => hno g (List.mem_cons_of_mem _ hg)), Option.map_some]
+
 end Martian.ForkName
